@@ -220,15 +220,13 @@ func New(config ...Config) fiber.Handler {
 			return nil
 		}
 
-		// The key can still be cached (no-cache request on a live entry, a concurrent miss stored it
-		// first): the entry is replaced below, so its heap slot and its bytes go now. Left behind, the
-		// slot would be counted twice and its eviction would delete the entry stored below.
+		// The key can still have a heap slot: its entry is still cached (no-cache request on a live entry, a
+		// concurrent miss stored it first) or the storage has dropped the expired entry on its own, which
+		// leaves the key as the only handle on the slot. The key is stored below, so the slot and its
+		// bytes go now. Left behind, the slot would be counted twice and its eviction would delete the
+		// entry stored below.
 		if cfg.MaxBytes > 0 {
-			// (an external storage hands out a blank entry for an unknown key)
-			if old := manager.get(key); old != nil && old.exp != 0 {
-				_, size := heap.remove(old.heapidx)
-				storedBytes -= size
-			}
+			storedBytes -= heap.removeKey(key)
 		}
 
 		// Remove oldest to make room for new
